@@ -7,12 +7,13 @@ from . import l2
 import fastavro._write_py as W
 import fastavro._read_py as R
 
-UNION_SCHEMAS = ["union_prims", "union_two_recs", "union_named_mix", "union_arr_map", "union_float_double",
+UNION_SCHEMAS = ["union_recs_by_ref", "union_nested_arrays", "union_prims", "union_two_recs", "union_named_mix", "union_arr_map", "union_float_double",
                  "union_overlap", "union_in_array_named", "union_map_rec", "pair_union_enum", "pair_union_fixed",
                  "pair_union_record", "pair_union_array", "pair_union_map", "pair_array_union", "pair_map_union",
                  "pair_field_union", "chain_arr_union_map", "chain_rec_union_rec_arr", "rec_list", "rec_mutual",
                  "rec_defaults", "pair_union_double", "pair_union_dictint", "union_double_float"]
-QUICK = ["union_prims", "union_two_recs", "union_named_mix", "union_float_double", "union_overlap",
+QUICK = ["union_prims", "union_two_recs", "union_named_mix", "union_float_double", "union_overlap", "union_recs_by_ref",
+         "union_nested_arrays",
          "union_in_array_named", "union_map_rec", "pair_union_record", "pair_array_union", "rec_list",
          "chain_rec_union_rec_arr", "union_arr_map"]
 
@@ -29,7 +30,8 @@ def ob_choice(c, v, hs, dtn):
             return True, "out of domain"
     hints = shape.Hints(hs)
     try:
-        d = shape.build(c["ir"], c["names"], v, c["cfg"], hints=hints)
+        # with tuple notation disabled a tuple is an ordinary sequence: array data are then built as tuples
+        d = shape.build(c["ir"], c["names"], v, c["cfg"].but(tuples=True) if dtn else c["cfg"], hints=hints)
     except OutOfDomain:
         return True, "out of domain"
     if dtn and (hints.wrong or any(h in (1, 3) for h in hs)):
@@ -116,9 +118,11 @@ def harnesses(tier, seed):
         h1 = (1, 0, 0) if th else (1, 0)
         hs.append(Harness(f"choice.{name}", "props.l9", f"v: {a}, hs: Tuple[int, int{', int' if th else ''}], dtn: bool",
                           call + "[0]", replay_call=call, setup=setup, what=f"union branch choice in {name}",
+                          timeout=300 if name == "union_recs_by_ref" else None,
                           samples=[(v, hz, False) for v in sv[:2]] + [(v, h1, False) for v in sv[2:]]))
         call = "ob_closure(C, v, rrn, rrno, rnt, rnto)"
         hs.append(Harness(f"closure.{name}", "props.l9", f"v: {a}, rrn: bool, rrno: bool, rnt: bool, rnto: bool",
                           call + "[0]", replay_call=call, setup=setup, what=f"read/write closure in {name}",
+                          timeout=300 if name == "union_recs_by_ref" else None,
                           samples=[(v, i == 0, False, i == 1, i == 2) for i, v in enumerate(sv)]))
     return hs
